@@ -6,7 +6,7 @@ from lang import *  # noqa
 from props.common import sub_rng, diff_runs, replay_generic, corpus_cases
 
 replay = replay_generic
-EVENTS = ['Da', 'Db', 'Dl', 'Aa', 'Ab', 'Ra', 'Rb', '{', 'for{', 'fn{', '}']
+EVENTS = ['Da', 'Db', 'Dl', 'Aa', 'Ab', 'Ra', 'Rb', '{', 'for{', 'forl{', 'fn{', '}']
 
 
 def render(hist, names=None):
@@ -29,6 +29,8 @@ def render(hist, names=None):
             out.append(ind + '{'); stack.append(('}', None))
         elif ev == 'for{':
             out.append('%s%s (%s a = %d; a < %d; a = a + 1000) {' % (ind, FOR, VAR, k[0] * 100, k[0] * 100 + 1)); stack.append(('}', None))
+        elif ev == 'forl{':      # a header that declares a LIST of names (the parser builds a different node for it)
+            out.append('%s%s (%s a = %d, b = %d; a < %d; a = a + 1000) {' % (ind, FOR, VAR, k[0] * 100, k[0] * 100 + 50, k[0] * 100 + 1)); stack.append(('}', None))
         elif ev == 'fn{':
             fn = 'f%d' % k[0]
             out.append('%s%s %s(%s) {' % (ind, FUN, fn, names['b'])); stack.append(('}', fn))
@@ -57,7 +59,7 @@ def histories(maxlen, rng, sample):
         for ev in EVENTS:
             if ev == '}' and depth == 0:
                 continue
-            if ev in ('{', 'for{', 'fn{') and depth >= 2:
+            if ev in ('{', 'for{', 'forl{', 'fn{') and depth >= 2:
                 continue
             if len(h) >= 4 and rng.random() > sample:
                 continue
@@ -74,6 +76,13 @@ def run(env, tier, seed, broken=None):
     L = 5 if tier == 'quick' else 7
     for h in histories(L, rng, 0.35 if tier == 'quick' else 0.3):
         cases.append({'id': 'h%d' % n, 'src': render(h)}); n += 1
+        # the same history written on ONE line when a name is read, then declared, then read again: what a read means
+        # may not depend on which other reads share its line
+        for nm in 'ab':
+            evs = [e for e in h if e in ('R' + nm, 'D' + nm, 'Dl', 'for{', 'forl{')]
+            if any(evs[i][0] == 'R' and evs[j][0] != 'R' and evs[k2][0] == 'R' for i in range(len(evs)) for j in range(i + 1, len(evs)) for k2 in range(j + 1, len(evs))):
+                cases.append({'id': 'h%d' % n, 'src': ' '.join(render(h).split('\n')) + '\n'}); n += 1
+                break
         # the same history with the parameter named like a built-in (the parser reserves those names for ধরি and
         # ফাংশন declarations only: as a parameter such a name is an ordinary local that shadows the global)
         if 'fn{' in h and 'Db' not in h and 'Dl' not in h:
@@ -130,6 +139,16 @@ def run(env, tier, seed, broken=None):
             elif where == 'block': extra.append('{\n' + decl + use + '{ n2 = 5; %s n2; }\n%s n2;\n}\n' % (PRINT, PRINT))
             elif where == 'fn': extra.append('%s big() {\n%s%s%s n0;\n}\n%s big();\n%s big();\n' % (FUN, decl, use, RETURN, PRINT, PRINT))
             elif count <= 70: extra.append('%s many(%s) {\n%s%s n0;\n}\n%s many(%s);\n' % (FUN, ', '.join(names), use, RETURN, PRINT, ', '.join(str(j) for j in range(count))))
+    # every form of for-initialiser (none, assignment, one declarator, a list of 2 or 3, uninitialised declarators) against the
+    # scope around the loop: an outer binding of the same name is shadowed and survives, the names are gone after the loop,
+    # a second loop in the same scope may declare them again, a closure made in the body keeps the header's variable
+    for init, nm in [('%s i = 0' % VAR, 'i'), ('%s i = 0, j = 10' % VAR, 'i'), ('%s i = 0, j = 10' % VAR, 'j'), ('%s j = 10, i = 0' % VAR, 'j'),
+                     ('%s i = 0, j = 10, k = 20' % VAR, 'k'), ('%s i = 0, j' % VAR, 'j'), ('%s j, i = 0' % VAR, 'j'), ('i = 0', 'i'), ('', 'i')]:
+        for pre in ['', '%s %s = 7;\n' % (VAR, nm), '%s i = 5;\n%s j = 6;\n' % (VAR, VAR)]:
+            loop = '%s (%s; i < 2; i = i + 1) { %s [i, %s]; }\n' % (FOR, init, PRINT, nm)
+            extra += [pre + loop + '%s %s;\n' % (PRINT, nm), pre + loop + loop + '%s "two";\n' % PRINT, '{ ' + pre + loop + '%s %s = 1;\n%s %s;\n}\n' % (VAR, nm, PRINT, nm),
+                      '%s run() { %s%s%s %s; }\n%s run();\n' % (FUN, pre, loop, RETURN, nm, PRINT),
+                      pre + '%s keep = %s;\n%s (%s; i < 2; i = i + 1) { %s get() { %s %s; } keep = get; }\n%s keep;\n%s (keep) { %s keep(); }\n' % (VAR, NIL, FOR, init, FUN, RETURN, nm, PRINT, IF, PRINT)]
     # a closure reads an outer variable, then the enclosing block declares the same name: outside the property's domain
     # (static vs dynamic resolution), kept out of the generators on purpose
     for e in extra:
@@ -140,5 +159,5 @@ def run(env, tier, seed, broken=None):
     mism, ri, rm = diff_runs(env, cases)
     nontriv = set((ri[c['id']][0]['stdout'], ri[c['id']][0]['status']) for c in cases)
     return {'evaluations': len(cases), 'distinct_nontrivial': len(nontriv), 'mismatches': mism,
-            'rule': 'well-bracketed histories over {declare, assign, read} x {a, b}, enter block / for-header (declaring a) / function (parameter b, called on exit), nesting <= 2, complete to length 4 and a %d%% sample of each extension up to length %d; redeclaration, undefined read/assign, shadowing, closure-sees-later-update probes; random programs of 8-40 statements over a colliding name pool; non-trivial = distinct (trace, status)' % (35 if tier == 'quick' else 30, L),
+            'rule': 'well-bracketed histories over {declare, assign, read} x {a, b}, enter block / for-header (declaring a, or the list a, b) / function (parameter b, called on exit), nesting <= 2, complete to length 4 and a %d%% sample of each extension up to length %d; redeclaration, undefined read/assign, shadowing, closure-sees-later-update probes; random programs of 8-40 statements over a colliding name pool; non-trivial = distinct (trace, status)' % (35 if tier == 'quick' else 30, L),
             'samples': [cases[200]['src'][:300], cases[-1]['src'][:200]]}
